@@ -52,13 +52,13 @@ CHECKS = {
          "No crash/restart (not in the statement; term and vote are not persisted). Log store is a 40-line model of ClusterStorage.", "6/C27"),
  "C28": ("raftsim", "exploration", "deterministic simulation: the real raft.rs under a discrete-event adversarial network and a virtual clock, invariant checked after every event",
          "Same simulator; after every event: no two nodes have committed different entries at one index, no node has committed two entries at one index, no commit index decreased. Payloads are unique per append. Runs are cut at the first recorded root-cause deviation (ghost monitor G3/G10) of the known finding.",
-         "As C27. Known finding: no previous-entry check in the protocol (known_findings.jsonl).", "6/C28"),
+         "As C27. Known finding: no previous-entry check in the protocol (known_findings.jsonl); whether a run that touches it is that finding is decided per history against the recorded baseline of raft.rs (DESIGN.md section 15).", "6/C28"),
  "C29": ("raftsim", "exploration", "deterministic simulation: the real raft.rs under a discrete-event adversarial network and a virtual clock, invariant checked at every election",
          "Same simulator; whenever a node becomes leader of term T, every entry that a leader of an earlier term had committed must be in its log at the same index with the same term and payload.",
          "'Later leader' is read as 'leader of a later term' (leader completeness); a stale-term candidate that wins with a delayed vote after a newer leader committed is counted as an observation, not a violation (DESIGN.md).", "6/C29"),
  "C30": ("raftsim", "exploration", "deterministic simulation: bounded liveness of the real raft.rs in simulated time once faults stop",
          "Fault-free schedules from the initial state and from the state left by a seeded faulty prefix; 60 simulated seconds after the last fault exactly one leader must exist and entries appended at it afterwards must be committed on every node within a further 35 simulated seconds.",
-         "Only timer configurations in which every node's election timeout fits inside the term timeout. Known finding: reconcile loop without progress (ghost monitor G10).", "6/C30"),
+         "Only timer configurations in which every node's election timeout fits inside the term timeout. Known findings: reconcile loop without progress (G10), election livelock (G11); decided per history against the recorded baseline of raft.rs (DESIGN.md section 15).", "6/C30"),
 
  "C31": ("srvsim", "exploration", "deterministic simulation: the real server in-process; seeded start order of the execution tasks of concurrently committed actions (H6 hook) compared with sequential execution",
          "2-6 conflicting cluster actions are committed before any execution task runs; the simulator draws how long each execution task waits before starting; announced execution order must be strictly increasing, results and observable state must equal sequential execution of the same log on a second server, and a restart must change nothing.",
